@@ -62,6 +62,20 @@ def check(case):
                 require(out.shape == e.shape and np.array_equal(out, e),
                         'get_waveforms (raw path) differs from the zero-padded window',
                         key='model-raw', observed=out, expected=e)
+            # 1b. the convenience wrappers (all spikes of a template / cluster on its channels)
+            for kind, ids_of, spikes_fn, chans_fn, wrap in (
+                    ('template', T.spike_templates, m.get_template_spikes, m.get_template_channels,
+                     m.get_template_spike_waveforms),
+                    ('cluster', T.spike_clusters, m.get_cluster_spikes, m.get_cluster_channels,
+                     m.get_cluster_spike_waveforms)):
+                for k in sorted(set(int(x) for x in ids_of))[:3]:
+                    sp_k = [i for i, x in enumerate(ids_of) if int(x) == k]
+                    ch_k = [int(c) for c in must_return('get_%s_channels' % kind, chans_fn, k)]
+                    out = must_return('get_%s_spike_waveforms' % kind, wrap, k)
+                    e = expect(sp_k, ch_k)
+                    require(np.asarray(out).shape == e.shape and np.array_equal(out, e),
+                            'get_%s_spike_waveforms(%d) is not the windows of its spikes on its '
+                            'channels' % (kind, k), key='model-wrapper', observed=out, expected=e)
             # 2. export the subset store, then look up
             if D.store_selection_size(T, m, case['max_per_template']) < 2:
                 return info
